@@ -176,7 +176,7 @@ func randV6(r *rand.Rand) netip.Addr {
 func c14Specs(e *Env, r *rand.Rand) []string {
 	var specs []string
 	add := func(s string) { specs = append(specs, s) }
-	reps := e.Pick(6, 40)
+	reps := e.Pick(6, 120)
 	for rep := 0; rep < reps; rep++ {
 		for n := 0; n <= 32; n++ {
 			a := randV4(r)
@@ -335,7 +335,7 @@ func C14(e *Env) {
 		}
 	}
 	// exhaustive membership over small blocks
-	minBits := e.Pick(22, 16)
+	minBits := e.Pick(22, 14)
 	nb := 0
 	for bits := 32; bits >= minBits; bits-- {
 		for rep := 0; rep < e.Pick(2, 3); rep++ {
